@@ -9,5 +9,7 @@ for c in "$@"; do
   echo "[$(basename $S)] $c rc=$rc $(echo "$out" | grep -c '^VIOLATION') violation line(s): $(echo "$out" | grep '^VIOLATION' | head -2 | tr '\n' ' ')"
 done
 git -C /repo checkout -- .
+# the generated parts of the model were rewritten from the changed tree: regenerate them from the restored one
+(cd /verif && /venv/bin/python -c "from harness import extract_tables, pytolean, pytolean_poly; extract_tables.write_if_changed(); pytolean.write_if_changed(); pytolean_poly.write_if_changed()" >/dev/null 2>&1)
 # the runs above rewrote evidence/ from a changed tree: restore the committed evidence (of the unchanged tree)
 git -C /verif checkout -- evidence
